@@ -207,3 +207,34 @@ class Report:
             print("ENGINE-ERROR: undischarged obligation without a violation record")
             return 3
         return 0
+
+
+_WARM = [False]
+
+
+def adversarial_warmup():
+    """A history every property must be insensitive to, played before anything is checked in every worker process:
+    each class-level derived mapping (spec, spec_no_listaggregates, elements, subaggregates, listaggregates,
+    listelements, unsupported, _superdict) of every model class is read once, abstract base classes first.  State that
+    a subclass inherits from a base class by mistake (a memo found through ordinary attribute lookup) then shows up as
+    wrong specs in the class proofs, the class invariants and the bounded runs, instead of depending on import order."""
+    if _WARM[0]:
+        return
+    _WARM[0] = True
+    try:
+        from ofxtools.models.base import Aggregate
+        import ofxtools.models  # noqa: F401
+    except Exception:
+        return
+    order = []
+    q = [Aggregate]
+    while q:
+        c = q.pop(0)
+        order.append(c)
+        q += [x for x in c.__subclasses__() if x not in order and x not in q]
+    for c in order:
+        for n in ("spec", "spec_no_listaggregates", "elements", "subaggregates", "listaggregates", "listelements", "unsupported", "_superdict"):
+            try:
+                getattr(c, n)
+            except Exception:
+                pass
